@@ -544,7 +544,7 @@ func (s *TxStore) ExistsUtxo(tx mwdb.ReadTransaction, out *wire.OutPoint) (flags
 	}
 
 	// unspent exists
-	uspKey, credKey, err := existsUnspent(nsUnspent, s.ksmgr.CurrentKeystore().Name(), out)
+	_, credKey, err := existsUnspent(nsUnspent, s.ksmgr.CurrentKeystore().Name(), out)
 	if err != nil {
 		return nil, err
 	}
@@ -580,7 +580,7 @@ func (s *TxStore) ExistsUtxo(tx mwdb.ReadTransaction, out *wire.OutPoint) (flags
 				})
 			return nil, fmt.Errorf("unexpected error")
 		}
-		cred.flags.SpentByUnmined = existsRawUnminedInput(nsUnminedInputs, uspKey) != nil
+		cred.flags.SpentByUnmined = existsRawUnminedInput(nsUnminedInputs, canonicalOutPoint(&out.Hash, out.Index)) != nil
 		return &cred.flags, nil
 	}
 
@@ -608,7 +608,7 @@ func (s *TxStore) ExistsUtxo(tx mwdb.ReadTransaction, out *wire.OutPoint) (flags
 					})
 				return nil, fmt.Errorf("unexpected error")
 			}
-			cred.flags.SpentByUnmined = existsRawUnminedInput(nsUnminedInputs, uspKey) != nil
+			cred.flags.SpentByUnmined = existsRawUnminedInput(nsUnminedInputs, canonicalOutPoint(&out.Hash, out.Index)) != nil
 			return &cred.flags, nil
 		}
 	}
@@ -639,7 +639,7 @@ func (s *TxStore) ExistsUtxo(tx mwdb.ReadTransaction, out *wire.OutPoint) (flags
 						})
 					return nil, fmt.Errorf("unexpected error")
 				}
-				cred.flags.SpentByUnmined = existsRawUnminedInput(nsUnminedInputs, uspKey) != nil
+				cred.flags.SpentByUnmined = existsRawUnminedInput(nsUnminedInputs, canonicalOutPoint(&out.Hash, out.Index)) != nil
 				cred.flags.IsUnmined = true
 				return &cred.flags, nil
 			}
